@@ -5,7 +5,7 @@
    spelling, literals mapped to null/true/false. *)
 From JsonSyntax Require Import Base.Prelude Base.Value Base.Unicode Base.Source Model.Parser Model.EntryPoints
   Model.Object Spec.Grammar Spec.Multimap Proofs.ParserSpec Proofs.ParserCorollaries.
-From JsonSyntax Require Import Base.ConstSyntax Generated.Consts Proofs.ConstsTie.
+From JsonSyntax Require Import Base.ConstSyntax Generated.Consts Proofs.ConstsTie Proofs.ParserSoundLex Proofs.LengthIndependence.
 
 (* whatever the parser returns is what the grammar says the text denotes (any options) *)
 Theorem C02_sound : forall o cs v m, Forall (fun c => c <= 0x10FFFF) cs ->
@@ -73,6 +73,15 @@ Example C02_example :
   = Ok (VObj [([0x6B], VArr [VNum (s2l "1.50e+2"); VStr [0x1F600; 0x0A]]); ([0x6B], VNull)], m).
 Proof. vm_compute. eexists; reflexivity. Qed.
 
+(* the value does not depend on the lengths the characters of the source declare: an error-free source with the
+   same characters (another encoding's byte lengths, 0, 2^32 ..) parses to the same value, with a code map of as many
+   entries (C05 says where each span lies in terms of the declared lengths) *)
+Theorem C02_value_independent_of_declared_lengths : forall o (t t' : list item) v m,
+  Forall (fun it => fst it <= 0x10FFFF) t -> cps t' = cps t ->
+  parse_with o (map inj t) = Ok (v, m) ->
+  exists m', parse_with o (map inj t') = Ok (v, m') /\ length m' = length m.
+Proof. exact parse_value_independent_of_lengths. Qed.
+
 (* static tie (DESIGN.md section 4, "Translator tie for constant tables"): the two-character escapes that the arms of
    `match parser.next_char()?` after a backslash in SmallString::parse_in denote -- evaluated from the source on every
    run -- are the characters the parser model returns for "\X", X ranging over char_domain *)
@@ -91,3 +100,4 @@ Print Assumptions C02_literals.
 Print Assumptions C02_lookup.
 Print Assumptions C02_example.
 Print Assumptions C02_escapes_from_source.
+Print Assumptions C02_value_independent_of_declared_lengths.
